@@ -7,7 +7,10 @@ import (
 	"flag"
 	"fmt"
 	"os"
+	"os/exec"
 	"sort"
+
+	"verif/harness/instrument"
 
 	"verif/harness/checks"
 	"verif/harness/core"
@@ -50,7 +53,69 @@ func main() {
 		fmt.Fprintln(os.Stderr, err)
 		os.Exit(3)
 	}
-	os.Exit(core.RunParent(ch, *tier, self, nil))
+	if ch.Build != "" {
+		bin, cleanup, err := buildInstrumented(ch.Build)
+		if cleanup != nil {
+			defer cleanup()
+		}
+		if err != nil {
+			fmt.Fprintln(os.Stderr, "HARNESS-ERROR:", err)
+			if cleanup != nil {
+				cleanup()
+			}
+			os.Exit(3)
+		}
+		self = bin
+	}
+	rc := core.RunParent(ch, *tier, self, nil)
+	if ch.Build != "" {
+		os.RemoveAll(stageDir)
+	}
+	os.Exit(rc)
+}
+
+var stageDir string
+
+// buildInstrumented instruments a scratch copy of /repo's current working
+// tree, checks that the repository's own tests still pass on it, and builds
+// the worker binary with -overlay (and -race for kind "race").
+func buildInstrumented(kind string) (string, func(), error) {
+	dir, err := os.MkdirTemp("", "verif-inst-")
+	if err != nil {
+		return "", nil, err
+	}
+	stageDir = dir
+	cleanup := func() { os.RemoveAll(dir) }
+	opt := instrument.Options{Repo: "/repo", Out: dir, Points: kind == "race"}
+	if kind == "race" {
+		opt.Vsync = "/root/go/pkg/mod/github.com/deckarep/golang-set@v1.7.1/threadsafe.go"
+	}
+	rep, err := instrument.Run(opt)
+	if err != nil {
+		return "", cleanup, fmt.Errorf("instrumenting /repo: %v", err)
+	}
+	env := append(os.Environ(), "GOFLAGS=-mod=mod", "GOPROXY=off", "GOSUMDB=off", "GOTOOLCHAIN=local", "GOCACHE=/verif/.cache/go-build")
+	// the rewrite must not change behaviour: /repo's own tests on the instrumented copy
+	t := exec.Command("go", "test", "-tags", "verif", "-overlay", rep.Overlay, "-vet=off", "-count=1", "go.1password.io/spg")
+	t.Dir = "/verif/harness"
+	t.Env = env
+	if out, err := t.CombinedOutput(); err != nil {
+		return "", cleanup, fmt.Errorf("the repository's tests fail on the instrumented copy (instrumentation changed behaviour, or the tree's tests fail):\n%s", out)
+	}
+	bin := "/verif/bin/check_" + kind
+	args := []string{"build", "-tags", "verif", "-overlay", rep.Overlay}
+	if kind == "race" {
+		args = append(args, "-race")
+	}
+	args = append(args, "-o", bin, "./cmd/check")
+	b := exec.Command("go", args...)
+	b.Dir = "/verif/harness"
+	b.Env = env
+	if out, err := b.CombinedOutput(); err != nil {
+		return "", cleanup, fmt.Errorf("building the instrumented worker: %v\n%s", err, out)
+	}
+	fmt.Printf("instrumented: %d map ranges %v, %d points, files %v\n", len(rep.MapRanges), rep.MapRanges, rep.Points, rep.Files)
+	return bin, cleanup, nil
 }
 
 func isFlagSet(fs *flag.FlagSet, name string) bool {
